@@ -1403,7 +1403,11 @@ fn match_of(
     } else {
         #[cfg(feature = "verif")]
         crate::verif::hit(crate::verif::Arm::OF_FALLBACK);
-        return solve_expression(expression, identifiers, document);
+        // A single expression can contribute at most one match
+        return match solve_expression(expression, identifiers, document) {
+            SolverResult::True if count > 1 => SolverResult::False,
+            res => res,
+        };
     }
     SolverResult::False
 }
